@@ -27,6 +27,9 @@ type kase struct {
 	Heavy   bool   `json:"full_state_oracle,omitempty"`
 	TOps    []tOp  `json:"trie_ops,omitempty"`
 	SOps    []sOp  `json:"statedb_ops,omitempty"`
+	// several StateDBs over one state.Database (multi.go)
+	MOps       []mOp `json:"handle_ops,omitempty"`
+	MaxHandles int   `json:"max_handles,omitempty"`
 	// merge-oracle counterexamples: a second history ending in the same content
 	OtherTOps []tOp `json:"other_trie_ops,omitempty"`
 	OtherSOps []sOp `json:"other_statedb_ops,omitempty"`
@@ -234,6 +237,8 @@ type sdbShared struct {
 	rootOf   map[string][32]byte
 	rootHist map[string][]sOp
 	roots    map[[32]byte]bool
+	// StateDB.GetProof / GetStorageProof proofs judged, and those made of >= 2 nodes
+	proofs, deepProofs int
 }
 
 func (c *ctx) exploreSDB(start string, prefix []sOp, depth, nA int, sh *sdbShared) partStats {
@@ -250,6 +255,7 @@ func (c *ctx) exploreSDB(start string, prefix []sOp, depth, nA int, sh *sdbShare
 		c.sample(k)
 		c.classes.Add("statedb:" + r.class)
 		c.coarse.Add("statedb:" + strings.SplitN(r.class, "|", 2)[0])
+		sh.proofs, sh.deepProofs = sh.proofs+r.proofs, sh.deepProofs+r.deepProofs
 		if r.hasRoot {
 			if prev, ok := sh.rootOf[r.ckey]; ok {
 				if prev != r.root {
@@ -362,6 +368,12 @@ func selfCheck(tds []*trieDriver) {
 			core.Fatal("non-deterministic execution of %s sweep case %s", part, sweepString(f.d, k))
 		}
 	}
+	for _, h := range [][]mOp{nil, append(multiPrefix(seedPrefix), mOp{0, sOp{"Open", 0, 0, 0}}, mOp{0, sOp{"AddBalance", 0, addAmt, 0}}, mOp{0, sOp{"Commit", 0, 0, 0}}, mOp{1, sOp{"Read", 1, 0, 0}}, mOp{0, sOp{"Open", 0, 0, 0}}, mOp{2, sOp{"Suicide", 0, 0, 0}}, mOp{2, sOp{"IntermediateRoot", 0, 0, 0}})} {
+		a, b := runMulti(3, h), runMulti(3, h)
+		if a.digest() != b.digest() {
+			core.Fatal("non-deterministic execution of statedb-handles history %q", mHistString(h))
+		}
+	}
 	for _, h := range [][]sOp{nil, append(append([]sOp{}, seedPrefix...), sOp{"Snapshot", 0, 0, 0}, sOp{"Suicide", 0, 0, 0}, sOp{"Revert", 0, 0, 0}, sOp{"IntermediateRoot", 0, 0, 0})} {
 		a, b := runSDB(h), runSDB(h)
 		if a.digest() != b.digest() {
@@ -422,6 +434,13 @@ func main() {
 						fmt.Sprintf("[statedb] histories %q and %q end in the same content but have roots %x and %x", sHistString(k.OtherSOps), sHistString(k.SOps), o.root[:6], r.root[:6]))
 				}
 			}
+		case "statedb-handles":
+			mh := k.MaxHandles
+			if mh == 0 {
+				mh = 3
+			}
+			r := runMulti(mh, k.MOps)
+			c.report(k, r.viols)
 		default:
 			core.Fatal("unknown part %q in replay artefact", k.Part)
 		}
@@ -439,6 +458,8 @@ func main() {
 		{"securetrie", "securetrie", true, false, 4, true},
 	}
 	sdbDepth, sdb1Depth := 4, 5
+	// several StateDBs over one state.Database: depth, number of handles
+	multiDepth, multiHandles := 4, 3
 	// fork family: depth, value indexes, reopen variants; sweep family: bound of
 	// the full three-key product, sizes of the third key next to the full
 	// two-key product.
@@ -453,13 +474,14 @@ func main() {
 			{"securetrie_fine_residency", "securetrie", false, true, 5, false},
 		}
 		sdbDepth, sdb1Depth = 5, 6
+		multiDepth = 5
 		forkDepth = 5
 		sweepSmall, sweepThird = 14, []int{-1}
 		secSweepSmall, secSweepThird = 2, []int{-1}
 	}
 	if v := os.Getenv("VERIF_C11_DEPTHS"); v != "" { // development aid only
 		var td, sd int
-		fmt.Sscanf(v, "%d,%d,%d,%d,%d,%d", &td, &sd, &sdbDepth, &sdb1Depth, &forkDepth, &sweepSmall)
+		fmt.Sscanf(v, "%d,%d,%d,%d,%d,%d,%d", &td, &sd, &sdbDepth, &sdb1Depth, &forkDepth, &sweepSmall, &multiDepth)
 		for i := range runs {
 			if runs[i].part == "trie" && runs[i].depth > td {
 				runs[i].depth = td
@@ -535,6 +557,26 @@ func main() {
 	lap("statedb_one_account_empty", stEmpty1)
 	stSeeded1 := c.exploreSDB("seeded", seedPrefix, sdb1Depth, 1, sh)
 	lap("statedb_one_account_seeded", stSeeded1)
+	for _, start := range []string{"empty", "seeded"} {
+		var pre []sOp
+		if start == "seeded" {
+			pre = seedPrefix
+		}
+		ms := c.exploreMulti(pre, multiDepth, multiHandles, sh)
+		lap("statedb_handles_"+start, ms.partStats)
+		ms.Roots = len(sh.roots)
+		cov["statedb_handles_"+start] = ms
+		states, trans, merges = states+ms.States, trans+ms.Transitions, merges+ms.Merges
+		if ms.OpensAtShared == 0 || ms.ReadsOfOthers == 0 || (multiHandles >= 3 && multiDepth >= 3 && ms.ThreeHandleExe == 0) {
+			core.Fatal("statedb_handles_%s: no state is opened at a root another live handle is at, or no handle is read after another one computed a root, or no execution has three handles (vacuous)", start)
+		}
+	}
+	bounds["statedb_handles_depth"], bounds["statedb_handles"] = multiDepth, multiHandles
+	cov["statedb_proofs_judged"] = sh.proofs
+	cov["statedb_proofs_of_two_or_more_nodes"] = sh.deepProofs
+	if sh.deepProofs == 0 {
+		core.Fatal("statedb: no GetProof/GetStorageProof proof of two or more nodes was judged (vacuous)")
+	}
 	stEmpty.Roots, stSeeded.Roots, stEmpty1.Roots, stSeeded1.Roots = len(sh.roots), len(sh.roots), len(sh.roots), len(sh.roots)
 	add("statedb_empty", stEmpty)
 	add("statedb_seeded", stSeeded)
@@ -557,6 +599,8 @@ func main() {
 		"Copies of a trie (<part>_fork): the same BFS over an alphabet with one more op, fork = copy the live trie the way the package's users do (plain trie: value copy `c := *t`; SecureTrie.Copy(); both are what state.Database.CopyTrie / StateDB.Copy do), allowed once per history; before it the ops work on the original, after it every op exists once per copy: update(k,v) for 2 value sizes (1/33 B), delete(k), hash, commit, commit+flush+reopen over a brand-new Database; canonical key = (content, residency class) of the original and of the copy; reference model = one content map per copy. After every execution BOTH copies are examined (the one the last op did not work on first): root = root upstream gives for that copy's content = root of a fresh in-tree trie of that content, every Get = that copy's content; on executions that discover a state additionally proofs for every key, leaf iteration and root stability on both copies. post_fork_deletes_by_shape classifies (from the key set alone) every delete executed after the fork: the branch the key hangs off keeps two children / collapses into a short node / collapses under an extension node and is merged with it (counted; the run aborts as vacuous if the last class is empty). " +
 		"Value sizes (<part>_value_size_sweep): for every set of 1–3 keys of the part's key pool (plain trie: keys of 0, 1, 2 and 32 bytes through the raw trie API; secure trie: 32-byte keys hashed, as account and storage tries are used) and value sizes swept over the contiguous range value_sizes_swept (plus the single byte 0x05 that RLP encodes as itself, spec -1; size 0 = inserted and removed again): 1 key: every size; 2 keys: full product of sizes; 3 keys: full product of the sizes up to triple_full_product_up_to_size, plus full product for the first two keys × third key of the sizes triple_third_key_sizes. One case = one content reached by two histories (in order + Hash, then Get/Prove→VerifyProof by both verifiers for every key, Commit, flush, reopen over a brand-new Database, Get, Hash; and reverse order with 33-byte values committed first, then overwritten/removed); oracle: root = root of the upstream trie driven by the same history = root of the second history = root after reopen, Gets and proofs yield the content. The node blobs of the committed REFERENCE trie are walked (embedded nodes inside their parent, hashed ones through the node database) and the cases containing a non-root node whose RLP is exactly 31 / 32 / 33 bytes are counted per node kind (cases_with_non_root_node_of_exactly_32_bytes is measured, > 0 enforced for the plain trie; with 32-byte hashed keys such nodes cannot occur this close to the root, the secure-trie count is reported as measured). " +
 		"StateDB: 2 addresses, alphabet = AddBalance(0|5), SubBalance(5) if affordable, SetNonce, SetCode, SetState(2 slots × {0,7}), Suicide, CreateAccount per address, AddLog, AddRefund, Snapshot, RevertToSnapshot(every live snapshot), IntermediateRoot(true), Commit(true)+state.New in 2 variants (same state.Database; TrieDB().Commit + brand-new state.Database on the disk db), from two start states (empty; seeded = contract with committed storage + funded account, built through the API); canonical key = all getter-observable state of the current revision and of every live snapshot + the account content as of the last finalisation + which accounts were addressed in the current transaction (pending in the journal) + whether the instance was finalised in place (IntermediateRoot) since it was opened + whether a live account was re-created in the current transaction + for which accounts a call was rolled back by RevertToSnapshot in the current transaction (so the state after a rollback is expanded on the instance that performed the rollback instead of being merged with the state the snapshot was taken in); the reference StateDB is driven through the same history on every execution. statedb_one_account_*: the same exploration with the per-address ops restricted to one address, one op deeper (covers modify A; Snapshot; modify A; RevertToSnapshot; IntermediateRoot/Commit — outcome classes IntermediateRoot|…/rollback-over-pending=true count those executions). " +
+		"StateDB proofs: after every execution whose last op computes a root (IntermediateRoot, Commit, Commit+reopen; all StateDB explorations) StateDB.GetProof is taken for every address and StateDB.GetStorageProof for every slot of every live account — all of them first, then each is judged on the slices the calls returned: it verifies (in-tree and reference VerifyProof) against the state root / against the storage root of that account's content and yields the RLP of the account or slot, or its absence, and it is the same node list the reference StateDB driven by the same history returns (statedb_proofs_judged, statedb_proofs_of_two_or_more_nodes are measured, > 0 enforced; a trie without entries has no node and nothing is demanded of it). The sink given to Trie.Prove in the trie families likewise retains the node slices it is handed (as the list behind GetProof does), and every proof is also compared node by node with the proof of a reference trie holding the same content. " +
+		"Several StateDBs over ONE state.Database (statedb_handles_*): the same BFS over an alphabet in which every op names the handle it works on: Open = state.New(root of the last Commit, the same state.Database) adds a handle (at most max_handles; every handle stays live and usable), per handle and address AddBalance(5), SetState(slot 0, 7|0), Suicide, Read (Exist/GetBalance/GetNonce/GetState: loads the account into that handle), per handle IntermediateRoot(true), Commit (IntermediateRoot(true)+Commit(true), the handle keeps being used) and Commit(true)+state.New at that root from the same Database (replaces the handle); from the empty and the seeded start. Reference model = one independent stack-of-copies model per handle + the content of the last Commit (what Open must reproduce); canonical key = every handle's key (as above) + which accounts each handle has loaded + the last committed content. After every execution EVERY handle (the one the last op worked on last) is read through all getters and judged against its own model and the reference handle; a root computed by the last op is judged against the content of the handle that computed it (+ merge oracle shared with the other StateDB explorations, + proofs). opens_at_a_root_another_live_handle_is_at, executions_reading_a_handle_after_another_handle_computed_a_root, executions_with_three_handles are measured (> 0 enforced). " +
 		"distinct_nontrivial = number of distinct canonical states reached (an execution that ends in an already known canonical state is a merge and is not counted) plus one per value-size-sweep case (each is a distinct content; its two histories count as two transitions, one of them a merge); outcome_class_count = distinct (part, op, residency class or model effect) classes observed, outcome_classes = their histogram without the residency component."
 	rb := 0
 	for cl, n := range c.classes.Map() {
@@ -579,6 +623,8 @@ func main() {
 		"SecureTrie.Prove and VerifyProof are given the keccak image of the key (the calling convention of StateDB.GetProof in both implementations)",
 		"snapshots are live until the next IntermediateRoot/Commit (Finalise ends the transaction and clears journal and refund — reference semantics); RevertToSnapshot is only issued for live snapshots, SubBalance only when the balance covers it (a negative balance cannot be RLP-encoded by either implementation)",
 		"a copy of a trie and its original are used from one goroutine, one op at a time (no concurrent use); both share one node database",
+		"several StateDBs over one state.Database are used from one goroutine, one op at a time; a StateDB that keeps being used after Commit was finalised (IntermediateRoot) right before the Commit, the way a block is processed (Commit alone does not mark self-destructed objects deleted in the instance — reference semantics)",
+		"a proof handed out by Prove / GetProof / GetStorageProof is the caller's: its bytes must not change after the call returned or while further proof nodes are produced",
 		"every execution runs on the real in-tree code (traces_validated_against_impl = all transitions); database = in-memory ethdb (MemDatabase), no LevelDB",
 	})
 }
